@@ -3,7 +3,8 @@
    by the same operators the history machine is built from (FeaturesDefs).
 
    RECS is a JSON array of observations:
-     kind "step"  one call of a public setter on a real model
+     kind "step"  one call of a public setter on a real model (via "setter"), or of the function the MFL
+                  feature -> function table stores under MFLKey[act] (via "mfl") - same obligation
           pre     vector the detectors reported before the call
           act     action token
           out     "applied" | "refused" (exception raised by the setter's own validation)
@@ -37,6 +38,7 @@ StepVerdict ==
         bad == {c \in Cats \ f : q[c] # t[c]}
         absorptionOpen == AbsStruct \subseteq f
     IN CASE ~Enabled(p, a) -> V("na", {})
+         [] R.via = "mfl" /\ R.act \notin MFLActs -> V("na", {})   \* no entry of the MFL table makes this request
          [] R.out = "error" -> V("internal-error", {})
          [] R.out = "refused" -> IF Refuse(p, a) THEN V("ok", {}) ELSE V("undocumented-refusal", {})
          [] ~(R.wf.connected /\ R.wf.doses_same) -> V("illformed", {})
